@@ -114,6 +114,13 @@ type excExit struct {
 	pos    token.Position
 }
 
+// guardsAllocs: allocation-size obligations (C09) belong to the functions tagged C09 (the operators that grow
+// strings and containers), not to every function that happens to be verified as somebody's callee.
+func (ex *Exec) guardsAllocs() bool {
+	o := ex.outer()
+	return o.contract != nil && hasProp(o.contract.Props, "C09")
+}
+
 // outer returns the Exec of the function under verification (inlined callees and spec contexts hang below it).
 func (ex *Exec) outer() *Exec {
 	e := ex
@@ -2128,7 +2135,7 @@ func sizeOfType(t types.Type) int64 {
 // allocGuard (property C09 only): an allocation whose element count is a program value must be small or within
 // the memory budget established by a passed guard (object.MustBeOk / SizeOk).
 func (ex *Exec) allocGuard(reach Term, count Term, elem types.Type, at ssa.Instruction, what string) {
-	if !ex.q.propActive("C09") || ex.skipAlloc {
+	if !ex.q.propActive("C09") || ex.skipAlloc || !ex.guardsAllocs() {
 		return
 	}
 	if isAtom(count.S) && !strings.ContainsAny(count.S, "!_") {
